@@ -1,3 +1,279 @@
-pub fn run(_prop: &str, _tier: &str, _seed: u64, _hints: Option<&str>) {
-    println!("{{}}");
+//! Native oracle exploration: evaluates the *property itself* on the real implementation.
+//! Output: JSON lines. `{"kind":"violation","class":..,"clause":..,"input":..,"expected":..,"observed":..}`
+//! and one `{"kind":"summary",...}`.
+use crate::gen::guard;
+use crate::rng::Rng;
+use idsp::*;
+use std::collections::BTreeMap;
+
+pub struct Report {
+    pub prop: String,
+    pub evaluations: u64,
+    pub distinct: u64,
+    pub clauses: BTreeMap<String, u64>,
+    pub samples: Vec<String>,
+    pub stats: BTreeMap<String, f64>,
+    pub nviol: u64,
+}
+
+pub fn jstr(s: &str) -> String {
+    let mut o = String::from("\"");
+    for c in s.chars() {
+        match c {
+            '"' => o.push_str("\\\""),
+            '\\' => o.push_str("\\\\"),
+            '\n' => o.push_str("\\n"),
+            c => o.push(c),
+        }
+    }
+    o.push('"');
+    o
+}
+
+impl Report {
+    pub fn new(prop: &str) -> Self {
+        Report {
+            prop: prop.into(),
+            evaluations: 0,
+            distinct: 0,
+            clauses: BTreeMap::new(),
+            samples: vec![],
+            stats: BTreeMap::new(),
+            nviol: 0,
+        }
+    }
+    /// count `n` evaluated cases for a clause
+    pub fn count(&mut self, clause: &str, n: u64) {
+        self.evaluations += n;
+        *self.clauses.entry(clause.into()).or_insert(0) += n;
+    }
+    pub fn sample(&mut self, s: String) {
+        if self.samples.len() < 6 {
+            self.samples.push(s);
+        }
+    }
+    pub fn stat_max(&mut self, key: &str, v: f64) {
+        let e = self.stats.entry(format!("max_{}", key)).or_insert(f64::MIN);
+        if v > *e {
+            *e = v;
+        }
+    }
+    pub fn violation(&mut self, class: &str, clause: &str, input: &str, expected: &str, observed: &str) {
+        self.nviol += 1;
+        if self.nviol <= 200 {
+            println!(
+                "{{\"kind\":\"violation\",\"class\":{},\"clause\":{},\"input\":{},\"expected\":{},\"observed\":{}}}",
+                jstr(class),
+                jstr(clause),
+                jstr(input),
+                jstr(expected),
+                jstr(observed)
+            );
+        }
+    }
+    pub fn finish(&self) {
+        let cl: Vec<String> = self.clauses.iter().map(|(k, v)| format!("{}:{}", jstr(k), v)).collect();
+        let sm: Vec<String> = self.samples.iter().map(|s| jstr(s)).collect();
+        let st: Vec<String> = self.stats.iter().map(|(k, v)| format!(",{}:{:e}", jstr(k), v)).collect();
+        println!(
+            "{{\"kind\":\"summary\",\"property\":{},\"evaluations\":{},\"distinct_nontrivial\":{},\"violations\":{},\"clauses\":{{{}}},\"samples\":[{}]{}}}",
+            jstr(&self.prop),
+            self.evaluations,
+            self.distinct,
+            self.nviol,
+            cl.join(","),
+            sm.join(","),
+            st.join("")
+        );
+    }
+}
+
+/// hint lines are correspondence request lines (`<mode> <op> <args> => <res>`) on which model and code disagreed
+pub fn read_hints(path: Option<&str>) -> Vec<Vec<String>> {
+    let mut v = vec![];
+    if let Some(p) = path {
+        if let Ok(s) = std::fs::read_to_string(p) {
+            for l in s.lines() {
+                let lhs = l.split(" => ").next().unwrap_or("");
+                let toks: Vec<String> = lhs.split_whitespace().skip(1).map(|t| t.to_string()).collect();
+                if !toks.is_empty() {
+                    v.push(toks);
+                }
+            }
+        }
+    }
+    v
+}
+
+pub fn run(prop: &str, tier: &str, seed: u64, hints: Option<&str>) {
+    let thorough = tier == "thorough";
+    let hints = read_hints(hints);
+    let mut rng = Rng::new(seed ^ 0x5ea7c4);
+    let mut rep = Report::new(prop);
+    match prop {
+        "C17" => c17(&mut rng, thorough, &hints, &mut rep),
+        _ => {}
+    }
+    rep.finish();
+}
+
+// ------------------------------------------------------------------ C17
+fn osub_check<T>(y: T, x: T, bits: u32, rep: &mut Report)
+where
+    T: Copy + Into<i128> + std::fmt::Display + num_traits_shim::WSub,
+{
+    let (d, w) = T::osub(y, x);
+    let (yi, xi, di): (i128, i128, i128) = (y.into(), x.into(), d.into());
+    let ok = (-1..=1).contains(&w) && yi - xi == di - (w as i128) * (1i128 << bits);
+    if !ok {
+        rep.violation(
+            "osub",
+            "y - x = d - w*2^bits, w in {-1,0,1}",
+            &format!("overflowing_sub::<i{}>({}, {})", bits, y, x),
+            "exact identity",
+            &format!("({}, {})", d, w),
+        );
+    }
+}
+
+pub mod num_traits_shim {
+    pub trait WSub: Sized {
+        fn osub(y: Self, x: Self) -> (Self, i32);
+    }
+    macro_rules! imp {
+        ($($t:ty)+) => {$(impl WSub for $t { fn osub(y: Self, x: Self) -> (Self, i32) { idsp::overflowing_sub(y, x) } })+};
+    }
+    imp!(i8 i16 i32 i64);
+}
+
+fn c17(rng: &mut Rng, thorough: bool, hints: &[Vec<String>], rep: &mut Report) {
+    // overflowing_sub: i8 exhaustive
+    for y in i8::MIN..=i8::MAX {
+        for x in i8::MIN..=i8::MAX {
+            osub_check(y, x, 8, rep);
+        }
+    }
+    rep.count("osub-i8-exhaustive", 1 << 16);
+    rep.distinct += 1 << 16;
+    // i16: exhaustive in thorough, stratified in quick
+    if thorough {
+        for y in i16::MIN..=i16::MAX {
+            for x in i16::MIN..=i16::MAX {
+                osub_check(y, x, 16, rep);
+            }
+        }
+        rep.count("osub-i16-exhaustive", 1u64 << 32);
+        rep.distinct += 1u64 << 32;
+    } else {
+        for _ in 0..(1 << 20) {
+            osub_check(rng.i16(), rng.i16(), 16, rep);
+        }
+        rep.count("osub-i16-sampled", 1 << 20);
+    }
+    let n = if thorough { 1 << 24 } else { 1 << 20 };
+    for _ in 0..n {
+        osub_check(rng.i32(), rng.i32(), 32, rep);
+        osub_check(rng.i64(), rng.i64(), 64, rep);
+    }
+    rep.count("osub-i32-i64-lattice-random", 2 * n);
+    rep.sample(format!("overflowing_sub(i32::MIN, 1) = {:?}", overflowing_sub(i32::MIN, 1)));
+    for h in hints {
+        if h[0] == "osub" && h.len() == 4 {
+            let (y, x): (i128, i128) = (h[2].parse().unwrap_or(0), h[3].parse().unwrap_or(0));
+            match h[1].as_str() {
+                "8" => osub_check(y as i8, x as i8, 8, rep),
+                "16" => osub_check(y as i16, x as i16, 16, rep),
+                "32" => osub_check(y as i32, x as i32, 32, rep),
+                "64" => osub_check(y as i64, x as i64, 64, rep),
+                _ => {}
+            }
+        }
+    }
+    // Unwrapper: sequences
+    let nseq = if thorough { 20000 } else { 2000 };
+    for s in 0..nseq {
+        let len = 1 + rng.below(200) as usize;
+        // Unwrapper<i64> with i32 samples
+        let mut u = Unwrapper::<i64>::default();
+        let mut sum: i128 = 0;
+        let mut prev: i32 = 0;
+        let mut x: i32 = 0;
+        let mut hist = vec![];
+        for _ in 0..len {
+            x = if rng.chance(3, 4) { x.wrapping_add(rng.i32() >> rng.below(6)) } else { rng.i32() };
+            hist.push(x);
+            let dx: i32 = u.update(x);
+            sum += dx as i128;
+            let ok = dx == x.wrapping_sub(prev) && u.y() as i128 == sum && u.y() as i32 == x && u.phase::<i32>() == x;
+            if !ok {
+                rep.violation("unwrapper", "increment / running sum / tracks sample", &format!("Unwrapper<i64> samples {:?}", hist), "dx = x - x_prev (wrapped), y = sum dx, y as i32 = x", &format!("dx={} y={}", dx, u.y()));
+                break;
+            }
+            prev = x;
+        }
+        // Unwrapper<i32> with i16 samples (the wide type wraps too: compare modulo 2^32)
+        let mut u = Unwrapper::<i32>::default();
+        let mut sum: i128 = 0;
+        let mut prev: i16 = 0;
+        let mut x: i16 = 0;
+        let mut hist = vec![];
+        for _ in 0..len {
+            x = if rng.chance(3, 4) { x.wrapping_add(rng.i16() >> rng.below(4)) } else { rng.i16() };
+            hist.push(x);
+            let dx: i16 = u.update(x);
+            sum += dx as i128;
+            let ok = dx == x.wrapping_sub(prev) && u.y() == sum as i32 && u.y() as i16 == x;
+            if !ok {
+                rep.violation("unwrapper", "increment / running sum / tracks sample", &format!("Unwrapper<i32> samples {:?}", hist), "dx = x - x_prev (wrapped), y = sum dx mod 2^32, y as i16 = x", &format!("dx={} y={}", dx, u.y()));
+                break;
+            }
+            prev = x;
+        }
+        rep.count("unwrapper-sequences", 2 * len as u64);
+        rep.distinct += 2;
+        if s == 0 {
+            rep.sample(format!("Unwrapper<i32> i16 samples {:?} -> y={}", &hist[..hist.len().min(6)], u.y()));
+        }
+    }
+    // injected-state hints
+    for h in hints {
+        if h[0] == "unwrap" && h.len() == 5 {
+            let (y, x): (i128, i128) = (h[3].parse().unwrap_or(0), h[4].parse().unwrap_or(0));
+            if h[1] == "64" {
+                let mut u = Unwrapper::<i64>::verif_from_raw(y as i64);
+                let dx: i32 = u.update(x as i32);
+                let ok = dx == (x as i32).wrapping_sub(y as i32) && u.y() == (y as i64).wrapping_add(dx as i64) && u.y() as i32 == x as i32;
+                if !ok {
+                    rep.violation("unwrapper", "single step from injected state", &format!("Unwrapper<i64>{{y:{}}}.update({})", y, x), "wrapped increment, sum, tracking", &format!("dx={} y={}", dx, u.y()));
+                }
+            } else {
+                let mut u = Unwrapper::<i32>::verif_from_raw(y as i32);
+                let dx: i16 = u.update(x as i16);
+                let ok = dx == (x as i16).wrapping_sub(y as i16) && u.y() == (y as i32).wrapping_add(dx as i32) && u.y() as i16 == x as i16;
+                if !ok {
+                    rep.violation("unwrapper", "single step from injected state", &format!("Unwrapper<i32>{{y:{}}}.update({})", y, x), "wrapped increment, sum, tracking", &format!("dx={} y={}", dx, u.y()));
+                }
+            }
+        }
+    }
+    // Accu
+    let nacc = if thorough { 200000 } else { 20000 };
+    for _ in 0..nacc {
+        let (s, st) = (rng.i32(), rng.i32());
+        let n = 1 + rng.below(100) as usize;
+        let got: Vec<i32> = Accu::new(s, st).take(n).collect();
+        let okl = got.len() == n;
+        let okv = got.iter().enumerate().all(|(i, v)| *v == (s as i128 + i as i128 * st as i128) as i32);
+        if !(okl && okv) {
+            rep.violation("accu", "n-th item = start + n*step mod 2^32; never ends", &format!("Accu::new({}, {}).take({})", s, st, n), "arithmetic progression", &format!("{:?}", &got[..got.len().min(8)]));
+        }
+        let (s, st) = (rng.i8(), rng.i8());
+        let got: Vec<i8> = Accu::new(s, st).take(300).collect();
+        if !(got.len() == 300 && got.iter().enumerate().all(|(i, v)| *v == (s as i128 + i as i128 * st as i128) as i8)) {
+            rep.violation("accu", "n-th item = start + n*step mod 2^8; never ends", &format!("Accu::<i8>::new({}, {})", s, st), "arithmetic progression", &format!("{:?}", &got[..got.len().min(8)]));
+        }
+    }
+    rep.count("accu", 2 * nacc);
+    rep.distinct += 2 * nacc;
+    let _ = guard(|| ());
 }
